@@ -194,6 +194,66 @@ def _ancestors(mod: Any, node: ast.AST) -> Iterator[ast.AST]:
         cur = mod.parents.get(cur)
 
 
+
+def stale_loop_values(fn, record_ctors):
+    """(use node, var, loop) where a local assigned before the loop and re-assigned only conditionally inside it is used to build a record"""
+    out=[]
+    for lp in [l for l in ast.walk(fn) if isinstance(l,(ast.For,ast.While))]:
+        # plain assignments to names in loop body (any depth, not nested loops' own targets)
+        assigned_in = {}
+        for n in ast.walk(lp):
+            if isinstance(n,(ast.Assign,ast.AnnAssign)) and getattr(n,'value',None) is not None:
+                for t in (n.targets if isinstance(n,ast.Assign) else [n.target]):
+                    for e in ast.walk(t):
+                        if isinstance(e,ast.Name) and isinstance(e.ctx,ast.Store): assigned_in.setdefault(e.id,[]).append(n)
+        loop_targets = {e.id for e in ast.walk(lp.target) if isinstance(e,ast.Name)} if isinstance(lp,ast.For) else set()
+        def block(stmts, must):
+            must=set(must)
+            for st in stmts:
+                # uses first
+                uses(st, must)
+                if isinstance(st,(ast.Assign,ast.AnnAssign)) and getattr(st,'value',None) is not None:
+                    for t in (st.targets if isinstance(st,ast.Assign) else [st.target]):
+                        for e in ast.walk(t):
+                            if isinstance(e,ast.Name): must.add(e.id)
+                elif isinstance(st,ast.If):
+                    a=block(st.body, must); b=block(st.orelse, must)
+                    ta = ends(st.body); tb = ends(st.orelse)
+                    if ta and tb: return must
+                    must = b if ta else (a if tb else a & b)
+                elif isinstance(st,ast.Try):
+                    a=block(st.body, must)
+                    hs=[block(h.body, must) for h in st.handlers if not ends(h.body)]
+                    must = a if not hs else a.intersection(*hs) if not ends(st.body) else set.intersection(*hs)
+                    must = block(st.orelse, must); must = block(st.finalbody, must)
+                elif isinstance(st,(ast.For,ast.While)):
+                    pass
+                elif isinstance(st, ast.With):
+                    must=block(st.body, must)
+            return must
+        def ends(stmts):
+            return bool(stmts) and isinstance(stmts[-1],(ast.Continue,ast.Break,ast.Return,ast.Raise))
+        def uses(st, must):
+            if isinstance(st,(ast.If,ast.Try,ast.For,ast.While,ast.With)):
+                tests=[st.test] if isinstance(st,(ast.If,ast.While)) else []
+                nodes=tests
+            else:
+                nodes=[st]
+            for nd in nodes:
+                for c in ast.walk(nd):
+                    if isinstance(c,ast.Call):
+                        d=dotted(c.func) or ''
+                        is_ctor = d.split('.')[-1] in record_ctors
+                        if not is_ctor: continue
+                        for a in list(c.args)+[k.value for k in c.keywords]:
+                            for x in ast.walk(a):
+                                if isinstance(x,ast.Name) and x.id in assigned_in and x.id not in must and x.id not in loop_targets:
+                                    out.append((c,x.id,lp))
+        block(lp.body, set())
+    return out
+
+
+
 def run(ctx: Any, prog: Program) -> None:
     db = prog.module('_engine_db')
     fgd = prog.module('fgd')
@@ -210,6 +270,24 @@ def run(ctx: Any, prog: Program) -> None:
     from rules.c16_helpers import q6_helper_args
     q6_helper_args(ctx, prog)
 
+    # Q3 (record-local values): every argument of a record constructor inside a parse loop is assigned in the same iteration before it is used
+    ctx.rule('C16.Q7', 'values put into a parsed record (Resource / KVDef / IODef) are assigned in the iteration that builds the record, never carried over from the previous one', floor=1)
+    RECORDS = {'Resource', 'KVDef', 'IODef'}
+    n_rec = 0
+    for q_, fns_ in fgd.all_funcs().items():
+        for fn_ in fns_:
+            in_loop = [c for l in ast.walk(fn_) if isinstance(l, (ast.For, ast.While)) for c in ast.walk(l) if isinstance(c, ast.Call) and (dotted(c.func) or '').split('.')[-1] in RECORDS]
+            if not in_loop:
+                continue
+            n_rec += len({id(c) for c in in_loop})
+            hz = stale_loop_values(fn_, RECORDS)
+            for c, v, lp in hz:
+                ctx.check('C16.Q7', False, fgd, c, f'`{ast.unparse(c)[:60]}` uses `{v}`, which this iteration only assigns on some paths: on the others the record gets the value left over from the previous record '
+                          '(an untagged resource after a tagged one inherits its tags)', func=q_, text=f'{q_}: {v} assigned per record')
+            if not hz:
+                ctx.check('C16.Q7', True, fgd, in_loop[0], 'record arguments assigned per iteration', func=q_, text=f'{q_}: record arguments assigned per record')
+    if n_rec < 1:
+        raise AnalysisError('Q7: no record constructor inside a parse loop found (Resource(...) in EntityDef.parse confirmed by hand)')
     # ---- Q1 --------------------------------------------------------------------------------------------------
     vt = ffold.enum_table('ValueTypes')
     common = dict(stream=('file',), dict_read=('from_dict',), dict_write=('str_dict', 'dic'), ignore=('make_lookup',))
@@ -611,6 +689,7 @@ def run(ctx: Any, prog: Program) -> None:
 
 
 MUTANTS: List[Dict[str, Any]] = [
+    {'id': 'resource_tags_hoisted', 'file': 'fgd.py', 'find': "                        filename = tok.expect(Token.STRING)\n                        tags = frozenset()\n", 'replace': "                        filename = tok.expect(Token.STRING)\n", 'extra': [{'file': 'fgd.py', 'find': "                resources: list[Resource] = list(entity.resources)\n", 'replace': "                resources: list[Resource] = list(entity.resources)\n                tags = frozenset()\n"}], 'expect': 'C16.Q7'},
     {'id': 'helper_lightcone_skips_default_outer', 'file': '_fgd_helpers.py', 'find': "        if self.color != '_light':\n            return [self.inner, self.outer, self.color]\n", 'replace': "        if self.color != '_light':\n            if self.outer == '_cone':\n                return [self.inner, self.color]\n            return [self.inner, self.outer, self.color]\n", 'expect': 'C16.Q6'},
     {'id': 'helper_line_swaps_key_value', 'file': '_fgd_helpers.py', 'find': "            self.start_key,\n            self.start_value,\n        ]\n        if self.end_key is not None and self.end_value is not None:\n            args += [self.end_key, self.end_value]\n        return args", 'replace': "            self.start_value,\n            self.start_key,\n        ]\n        if self.end_key is not None and self.end_value is not None:\n            args += [self.end_key, self.end_value]\n        return args", 'expect': 'C16.Q6'},
     {'id': 'helper_line_half_end_pair', 'file': '_fgd_helpers.py', 'find': "        if self.end_key is not None and self.end_value is not None:\n            args += [self.end_key, self.end_value]\n        return args", 'replace': "        if self.end_key is not None:\n            args.append(self.end_key)\n            if self.end_value is not None:\n                args.append(self.end_value)\n        return args", 'expect': 'C16.Q6'},
